@@ -56,10 +56,13 @@ def _run(ops, preempt, picks):
     from deepproto.proto.poll.v1.poll_pb2 import PollResponse, ResponseType
     from vlib.world import World
     g = _stepped()
+    from vlib.stepper import reset_locks
+    reset_locks()
     sched = Sched(preempt=preempt, picks=picks)
     w = World()
     th = TaskHandler.__new__(TaskHandler)
     th._pool, th._pending, th._job_id, th._lock, th._open = None, {}, 0, threading.Lock(), True
+    th._accept_lock = threading.Lock()
     th.submit_task = types.MethodType(g["submit_task"], th)
     setattr(th, "_TaskHandler__check_open", types.MethodType(g["check_open"], th))
     tps = w.tps
@@ -214,7 +217,22 @@ def _mut_custom_dropped_on_update():
     _stepped()
 
 
-MUTANTS = {"hash_not_stored": _mut_hash_not_stored, "no_change_clears": _mut_no_change_clears, "custom_dropped_on_update": _mut_custom_dropped_on_update}
+def _mut_captured_config():
+    from deep.config.tracepoint_config import TracepointConfigService as T
+
+    def update_listeners(self, ts, old_hash, current_hash, old_config, new_config):
+        listeners_copy = self._listeners.copy()
+        for listeners in listeners_copy:
+            try:
+                listeners.config_change(ts, old_hash, current_hash, old_config, new_config + self._custom)
+            except Exception:
+                pass
+    T.update_listeners = update_listeners
+    _CACHE.clear()
+    _stepped()
+
+
+MUTANTS = {"captured_config": _mut_captured_config, "hash_not_stored": _mut_hash_not_stored, "no_change_clears": _mut_no_change_clears, "custom_dropped_on_update": _mut_custom_dropped_on_update}
 
 if not _CACHE:
     try:
@@ -224,10 +242,12 @@ if not _CACHE:
 
 CONDITIONS = [
     dict(fn="converge", cubes={"quick": ["n == 2 and o1 == %d and o2 %s and t1 == %d and k1 == 0 and k2 == 0" % (a, b, t) for a in range(8) for b in ("<= 3", ">= 4") for t in (1,)] +
-                                        ["n == 3 and o1 == %d and o2 == %d and o3 %s and t1 == 1 and k1 == 0 and k2 == 0" % (a, b, c) for (a, b) in ((3, 0), (4, 1)) for c in ("<= 3", ">= 4")],
-                               "thorough": ["n == %d and o1 == %d and o2 == %d and t1 == %d and k1 == 0" % (n, a, b, t) for n in (3, 4) for a in range(8) for b in range(8) for t in range(3)]},
-         twins=["reach", "mutant:hash_not_stored@n == 2 and o1 == 0 and o2 <= 3 and t1 == 1 and k1 == 0 and k2 == 0", "mutant:no_change_clears@n == 2 and o1 == 0 and o2 <= 3 and t1 == 1 and k1 == 0 and k2 == 0"],
+                                        ["n == 3 and o1 == %d and o2 == %d and o3 == %d and t1 == 1 and k1 == 0 and k2 == 0" % h3 for h3 in ((0, 1, 2), (0, 1, 6), (6, 0, 1), (6, 0, 7), (0, 4, 1), (0, 5, 1))],
+                               "thorough": ["n == 3 and o1 == %d and o2 == %d and o3 %s and t1 == 1 and k1 == 0 and k2 == 0" % (a, b, c) for a in range(8) for b in range(8) for c in ("<= 3", ">= 4")] +
+                                           ["n == 2 and o1 == %d and t1 == %d and k1 == 0 and k2 == 0" % (a, t) for a in range(8) for t in (0, 2)]},
+         twins=["reach", "mutant:hash_not_stored@n == 2 and o1 == 0 and o2 <= 3 and t1 == 1 and k1 == 0 and k2 == 0", "mutant:no_change_clears@n == 2 and o1 == 0 and o2 <= 3 and t1 == 1 and k1 == 0 and k2 == 0",
+                "mutant:captured_config@n == 2 and o1 == 0 and o2 <= 3 and t1 == 1 and k1 == 0 and k2 == 0"],
          timeout={"quick": 240, "thorough": 900},
-         bounds="quick: all histories of 2 operations and 2 families of 3 over 8 operation kinds, pre-emption to worker 1; thorough: histories of 3-4, pre-emption to any thread; one pre-emption at a SYMBOLIC step "
+         bounds="quick: all histories of 2 operations and 6 histories of 3 (several updates / registrations in flight) over 8 operation kinds, pre-emption to worker 1; thorough: all histories of 3 (pre-emption to worker 1) and of 2 (pre-emption to the driver / worker 2); one pre-emption at a SYMBOLIC step "
                 "index (0..100); forced switches by picks"),
 ]
